@@ -82,7 +82,8 @@ Theorem C02_eval_g_none : forall (dom : mdomain) (eps : float) (s : state) (objs
   if fdiv0 (d_types dom) objs pm s phi then Err EOther else Ok (holds eps (d_types dom) objs pm s phi).
 Proof. exact Proofs.C02_Eval.C02_eval_g_none. Qed.
 
-(* finding D37: with no object table a forall counts as true (this is how 'when' antecedents are evaluated) *)
+(* finding D37 (repaired in 40d673f): with no object table a forall counts as true -- this is how 'when' antecedents
+   were evaluated, and still how an operator built without problem objects evaluates *)
 Theorem C02_eval_none_refuted :
   exists (d : mdomain) (eps : float) (pm : pmap) (p : mpre) (g : gpre) (phi : form) (objs : objects) (s : state),
     ground_pre d pm p = Ok g /\ denote_pre p = Some phi /\
